@@ -14,8 +14,9 @@ EXTENDS Props, Blame, Json, IOUtils
 
 VARIABLE l,         \* position of the next event to be explained
          sv,        \* per stream-attached actor: stream items taken in a row although its mailbox was not empty
-         pend       \* per client: the operation whose call has begun but whose first effect has not been placed yet
-tvars == <<vars, l, sv, pend>>
+         pend,      \* per client: the operation whose call has begun but whose first effect has not been placed yet
+         rel        \* actors that were registered children of a parent that has terminated (released by it)
+tvars == <<vars, l, sv, pend, rel>>
 NoOp == [op |-> "none"]
 
 Rec == ndJsonDeserialize(IOEnv.TRACE)
@@ -26,7 +27,10 @@ G(id, c) == IF c THEN TRUE ELSE (TLCSet(2, TLCGet(2) \cup {<<l, id, {}>>}) /\ FA
 GX(id, extra, c) == IF c THEN TRUE ELSE (TLCSet(2, TLCGet(2) \cup {<<l, id, extra>>}) /\ FALSE)
 \* whatever goes wrong about a stream-attached actor also concerns C13 ("messages sent to its address are handled too",
 \* "an explicit stop or handle drop terminates it")
-SX(a) == IF a \in Actor /\ act[a].stream THEN {"C13"} ELSE {}
+\* ... and about an actor whose parent (it was a registered child) has terminated also concerns C16 ("children are then
+\* released, so children without other strong handles finish their accepted messages and stop gracefully")
+ReleasedChild(a) == a \in rel
+SX(a) == (IF a \in Actor /\ act[a].stream THEN {"C13"} ELSE {}) \cup (IF a \in Actor /\ ReleasedChild(a) THEN {"C16"} ELSE {})
 IsEvent(e) == l <= Len(Rec) /\ Rec[l].ev = e /\ l' = l + 1
 E == Rec[l]
 
@@ -53,7 +57,7 @@ IdleReason(prefix, a) ==
   ELSE prefix \o "closed"
 HeldAsChild(a) == \E p \in Actor : ~Terminated(p) /\ \E i \in 1..Len(act[p].kids) : act[p].kids[i].a = a
 
-TInit == EmptyInit /\ l = 1 /\ sv = [a \in Actor |-> <<0, 0, 0>>] /\ pend = [c \in Client |-> NoOp] /\ TLCSet(2, {}) /\ TLCSet(3, 1)
+TInit == EmptyInit /\ l = 1 /\ sv = [a \in Actor |-> <<0, 0, 0>>] /\ pend = [c \in Client |-> NoOp] /\ rel = {} /\ TLCSet(2, {}) /\ TLCSet(3, 1)
 
 -----------------------------------------------------------------------------
 T_Reset == /\ IsEvent("reset")
@@ -81,7 +85,7 @@ T_Block == /\ IsEvent("block")
               /\ IF ~Known(t) \/ yl \/ ("woken" \in DOMAIN E /\ E.woken) \/ ~CanStep(t) \/ (t \in Tasker /\ cli[t].stage = "reglock") THEN TRUE
                  ELSE IF t \in Client THEN GX("blk." \o cli[t].stage, SX(cli[t].ta), FALSE)
                  ELSE IF t \in DOMAIN tmr THEN G(IF ~Terminated(tmr[t].a) /\ LiveH(tmr[t].a, StrongKinds) THEN "blk.timer.alive" ELSE "blk.timer", FALSE)
-                 ELSE IF act[t].pc = "idle" THEN G(IdleReason("blk.loop.", t), FALSE)
+                 ELSE IF act[t].pc = "idle" THEN GX(IdleReason("blk.loop.", t), SX(t), FALSE)
                  ELSE IF act[t].pc = "handling" THEN G("blk.loop.handling", FALSE)
                  ELSE G("blk.loop", FALSE)
               /\ cur' = None /\ yl' = FALSE /\ UNCHANGED sys
@@ -347,7 +351,7 @@ T_Quiescent == /\ IsEvent("quiescent")
                     /\ LET bad == {a \in Actor : CanStep(a)} IN
                        IF bad = {} THEN TRUE
                        ELSE LET a == CHOOSE x \in bad : TRUE IN
-                            G(IF act[a].pc = "idle" THEN IdleReason("q.loops.", a) ELSE "q.loops", FALSE)
+                            GX(IF act[a].pc = "idle" THEN IdleReason("q.loops.", a) ELSE "q.loops", SX(a), FALSE)
                     /\ G("q.clients", \A c \in Client : ~CanStep(c))
                     /\ G("q.timers", \A i \in DOMAIN tmr : ~CanStep(i))
                     /\ G("q.unresolved", SeqSet(E.unresolved) = {c \in Client : cli[c].stage # "idle"})
@@ -417,7 +421,9 @@ SvNext == sv' = [a \in Actor |->
 C13_FairSelect == \A a \in Actor : sv[a][1] <= FairBound /\ sv[a][2] <= FairBound
 \* (C10: "timers never keep the actor alive": a stream-attached actor whose stream has ended goes on handling its own ticks)
 C10_TicksAfterStreamEnd == \A a \in Actor : sv[a][3] <= FairBound - 2
-TSpec == TInit /\ [][TNext /\ SvNext]_tvars
+RelNext == rel' = IF l' > l /\ E.ev = "reset" THEN {}
+                  ELSE rel \cup UNION {{act[p].kids[i].a : i \in 1..Len(act[p].kids)} : p \in {q \in Actor : act[q].kids # <<>> /\ act'[q].kids = <<>>}}
+TSpec == TInit /\ [][TNext /\ SvNext /\ RelNext]_tvars
 
 Track == TLCSet(3, IF l > TLCGet(3) THEN l ELSE TLCGet(3))
 
